@@ -29,6 +29,7 @@ def main(ctx, args):
     exe = ctx.probe("reprobe")
     st = dict(patterns=0, simple=0, cases=0, found=0, spec_disagree=0, classifier=0)
     samples, reqs, meta = [], [], []
+    refused = []       # patterns with an operator that the engine refuses: the single-pattern matcher must refuse them too
     for job, path in tables:
         lines, cases = load_table(path)
         for c in cases:
@@ -39,6 +40,8 @@ def main(ctx, args):
             if c["simple"] and c["hasop"]:
                 # the spec's transcription of the classifier accepts an operator: decided at code level below
                 ctx.notes.append("Simple() accepts operator pattern %r" % ptxt) if len(ctx.notes) < 20 else None
+            if c["hasop"] and not c["simple"] and not c["ok"] and c["flaw"] not in ("hang", "overrun"):
+                refused.append((ptxt, hp, enc(lines[0])))
             if not c["clean"]:
                 continue
             st["simple"] += c["simple"]
@@ -49,6 +52,17 @@ def main(ctx, args):
                 reqs.append("M %d %d %d %d 1 %s %s" % (ic, nb, ne, NG, hp, hl))
                 meta.append((c, ptxt, lines[li - 1], (ic, nb, ne), exp, sexp))
     resps, crashes = run_probe(exe, reqs, skipkey=lambda r: r.split()[6])
+    # "a pattern containing any operator is never treated as a literal": when the engine refuses such a pattern (unclosed
+    # group, reversed bounds ...) there is no matcher at all - an answer would come from searching a literal piece of it
+    r2, c2 = run_probe(exe, ["S 0 0 0 %d 1 %s %s" % (NG, hp, hl) for _, hp, hl in refused], skipkey=lambda r: r.split()[6])
+    st["refused_patterns"] = len(refused)
+    for (ptxt, hp, hl), resp, cr in zip(refused, r2, c2):
+        if cr:
+            if not cr.get("skipped"):
+                ctx.violation("matcher crashed on the refused pattern %r: %s" % (ptxt, cr["stderr"][-800:]), {"pattern_text": ptxt, "crash": cr}, {"kind": "crash", "anchors_only": False})
+        elif not resp.startswith("E"):
+            ctx.violation("pattern %r holds an operator and the engine refuses it, but the single-pattern matcher accepted it and answered %r" % (ptxt, resp),
+                          {"pattern_text": ptxt, "pattern_hex": hp, "line_hex": hl, "rstr": resp}, {"kind": "refused-accepted"})
     for k, (c, ptxt, line, fl, exp, sexp) in enumerate(meta):
         st["cases"] += 1
         rs, rm = resps[2 * k], resps[2 * k + 1]
